@@ -20,6 +20,16 @@ class StmtMixin(object):
         if m is None:
             raise EngineError('unsupported statement %s at line %s' % (type(s).__name__, getattr(s, 'lineno', '?')))
         self.cur_line = getattr(s, 'lineno', 0)
+        c = self.cur_contract
+        if c is not None and c.casts and self.frame().func_name == c.qual:
+            head = pyast.unparse(s).splitlines()[0].strip()
+            for (text, var, spec) in c.casts:
+                if head == text:
+                    v = st.vars.get(var)
+                    sp = parse_spec(spec)
+                    self.oblige(st, 'cast.%s@%d' % (var, self.cur_line), sp.assumption(v.t),
+                                'sidecar assertion: %s has type %s before `%s`' % (var, spec, text))
+                    st.vars[var] = V(v.t, sp)
         return m(st, s)
 
     def s_Pass(self, st, s):
